@@ -249,12 +249,12 @@ Section C12.
       destruct (Hsame (do_multi_insert P c s items)) as [A B]; [|split; [exact A | intros _ _; exact B]].
       apply multi_insert_frame. exact Hsil.
     - destruct (do_multi_remove P c s ks []) as [s' l] eqn:E. cbn [fst].
-      destruct (do_multi_remove_spec P c Hn ks s [] s' l E) as [D [dcc [[H _] [_ [Hks _]]]]].
+      destruct (do_multi_remove_spec P c Hn ks s [] s' l E) as [D [dcc [[H _] [_ [_ [Hks _]]]]]].
       destruct (mstep_keep s s' _ _ (OMultiRemove ks) k e H Hf) as [A B]. split; [exact A|].
       intros Hrm _. exists e. apply B. intros Hi. apply In_dkeys in Hi. destruct Hi as [d [Hd [_ Hk]]].
       rewrite Forall_forall in Hks. specialize (Hks d Hd). rewrite Hk in Hks. apply mem_In in Hks. congruence.
     - destruct (do_multi_remove P c s ks []) as [s' l] eqn:E. cbn [fst].
-      destruct (do_multi_remove_spec P c Hn ks s [] s' l E) as [D [dcc [[H _] [_ [Hks _]]]]].
+      destruct (do_multi_remove_spec P c Hn ks s [] s' l E) as [D [dcc [[H _] [_ [_ [Hks _]]]]]].
       destruct (mstep_keep s s' _ _ (OMultiInvalidate ks) k e H Hf) as [A B]. split; [exact A|].
       intros Hrm _. exists e. apply B. intros Hi. apply In_dkeys in Hi. destruct Hi as [d [Hd [_ Hk]]].
       rewrite Forall_forall in Hks. specialize (Hks d Hd). rewrite Hk in Hks. apply mem_In in Hks. congruence.
